@@ -183,13 +183,17 @@ def chunk_specs(tier):
         J('batches-pending3-b24:H3', 'pending', dict(n=3, batch_bytes=24), dict(H=3), dict(unrep=6)),
         J('batches-pipeline3-b24:H2R1', 'reconnect_pipeline', dict(n=3, batch_bytes=24), dict(H=2, R=1), dict(unrep=4)),
         J('chunks-lagging3-b8:H2R1X1', 'lagging', dict(n=3, batch_bytes=8), dict(H=2, R=1, X=1)),
+        # the connection (to a voter or to a read-only node) breaks at the k-th write inside the send call that
+        # writes the pieces of a large entry
+        J('chunks-pending2+1-b8-sendfault:H1X1', 'pending', dict(n=2, observers=1, batch_bytes=8, send_faults=True),
+          dict(H=1, X=1), dict(unrep=1)),
     ]
     if not q:
         js += [J('chunks-steady3-b8:S2H3X2R2', 'steady', dict(n=3, batch_bytes=8), dict(S=2, H=3, X=2, R=2), dict(k=0)),
                J('chunks-deposed3-b8:H3R2', 'deposed', dict(n=3, batch_bytes=8), dict(H=3, R=2), dict(black=True)),
                J('chunks-reelected3-b8:R2H5X1', 'reelected_cache3', dict(n=3, batch_bytes=8), dict(R=2, H=5, X=1))]
     for j in js:
-        j['max_states'] = 300000 if q else 2500000
+        j['max_states'] = (60000 if 'sendfault' in j['name'] else 300000) if q else 2500000
     return js
 
 
